@@ -102,8 +102,35 @@ def finding_matches(fnd, sub_name, kind, case) -> bool:
 
 
 # ------------------------------------------------------------------ shard worker
+OPT_PREFIX = "under-python-OO:"
+
+
+def _run_opt_job(job):
+    """One extra job per sub-check runs a sample of its cases in an interpreter started with -OO (assert statements
+    and docstrings compiled away): code that does work inside an assert, or reads __doc__, only fails there."""
+    import subprocess
+    environ = dict(os.environ, VF_OPT_CHILD="1", PYTHONPATH=VERIF + os.pathsep + os.environ.get("PYTHONPATH", ""))
+    p = subprocess.run([sys.executable, "-OO", "-m", "vf.optshard", dumps(job)], capture_output=True, text=True,
+                       env=environ, cwd=VERIF, timeout=3600)
+    try:
+        with _deep():
+            out = json.loads(p.stdout[p.stdout.index("\x00") + 1:])
+    except (ValueError, IndexError):
+        return {"sub": job["sub"], "shard": job["shard"], "evaluations": 0, "digests": [], "classes": {}, "samples": [],
+                "failures": [], "known": {}, "budget_hit": False, "rounds": 0, "wall": 0.0,
+                "harness": "optimised-interpreter child failed:\n" + p.stderr[-3000:]}
+    for f in out["failures"]:
+        f["kind"] = OPT_PREFIX + f["kind"]
+    out["classes"] = {("_opt" + k if k.startswith("_") else k): v for k, v in out["classes"].items()}
+    out["classes"]["under-python-OO"] = out["evaluations"]
+    out["digests"] = []
+    return out
+
+
 def _run_shard(job):
     """Runs in a fresh process.  job = dict(pid, sub, tier, seed, shard, nshards)."""
+    if job.get("opt") and os.environ.get("VF_OPT_CHILD") != "1":
+        return _run_opt_job(job)
     t0 = time.time()
     os.environ.setdefault("PYTHONHASHSEED", "0")
     out = {"sub": job["sub"], "shard": job["shard"], "evaluations": 0, "digests": [],
@@ -118,8 +145,11 @@ def _run_shard(job):
         st = _ShardState(sub, fnds, job)
         if sub.enum is not None:
             cases = sub.enum(job["tier"], job["seed"])
+            if job.get("opt"):
+                step = max(1, len(cases) // (30 if job["tier"] == "quick" else 300))
+                cases = [c for i, c in enumerate(cases) if i % step == 0]
             for i, case in enumerate(cases):
-                if i % job["nshards"] != job["shard"]:
+                if not job.get("opt") and i % job["nshards"] != job["shard"]:
                     continue
                 st.evaluate(case, collect=True)
         if sub.gen is not None:
@@ -215,6 +245,8 @@ def _run_hypothesis(sub, st, job):
 
     tier = job["tier"]
     n = sub.n[tier]
+    if job.get("opt"):
+        n = max(3, min(n // 10, 40 if tier == "quick" else 400))
     strategy = sub.gen(tier)
     budget = sub.shrink_budget[tier]
     the_seed = int(job["seed"]) * 1000 + job["shard"]
@@ -295,6 +327,8 @@ def run_property(pid: str, tier: str, seed: int, only_sub=None) -> int:
         k = sub.shards[tier]
         for s in range(k):
             jobs.append({"pid": pid, "sub": sub.name, "tier": tier, "seed": seed, "shard": s, "nshards": k})
+        if os.environ.get("VF_NO_OPT") != "1":
+            jobs.append({"pid": pid, "sub": sub.name, "tier": tier, "seed": seed, "shard": k, "nshards": k, "opt": True})
     ctx = mp.get_context("spawn")
     nproc = min(int(os.environ.get("VF_PROCS", "16")), max(1, len(jobs)))
     results = []
@@ -340,6 +374,8 @@ def run_property(pid: str, tier: str, seed: int, only_sub=None) -> int:
         for kind, f in ps["failures"].items():
             payload = {"property": pid, "sub": sname, "kind": kind, "detail": f["detail"],
                        "case": f["case"], "seen": f["count"], "tier": tier, "seed": seed}
+            if kind.startswith(OPT_PREFIX):
+                payload["python_flags"] = ["-OO"]
             h = digest(payload["case"])[:10]
             path = os.path.join("replays", "new", f"{pid}-{kind_slug(kind)}-{h}.json")
             with open(os.path.join(VERIF, path), "w", encoding="utf-8") as fh:
@@ -480,7 +516,14 @@ def replay(pid: str, path: str) -> int:
     fnds = load_findings(pid)
     with open(path, encoding="utf-8") as fh:
         rp = json.load(fh)
+    if rp.get("python_flags") and os.environ.get("VF_OPT_CHILD") != "1":
+        import subprocess
+        environ = dict(os.environ, VF_OPT_CHILD="1", PYTHONPATH=VERIF + os.pathsep + os.environ.get("PYTHONPATH", ""))
+        return subprocess.run([sys.executable] + list(rp["python_flags"]) + ["-m", "vf.cli", pid, "--replay", path],
+                              env=environ, cwd=VERIF).returncode
     discs = run_case(prop, rp["sub"], rp["case"])
+    if rp.get("python_flags"):
+        discs = [(OPT_PREFIX + k, d) for k, d in discs]
     rc = 0
     for kind, detail in discs:
         matched = next((f for f in fnds if finding_matches(f, rp["sub"], kind, rp["case"])), None)
